@@ -16,9 +16,11 @@ class SwapPartitionHandler(CurrentTokenBaseHandler):
             isinstance(token, Function)
             and token.get_name().lower() == "swap_partitions_between_tables"
         ):
-            _, parenthesis = token.tokens
-            _, identifier_list, _ = parenthesis.tokens
-            identifiers = list(identifier_list.get_identifiers())
+            identifiers = list(token.get_parameters())
+            if len(identifiers) < 4:
+                # staging table, min range, max range and target table are mandatory:
+                # with fewer arguments there is no target table to report
+                return
             holder.add_read(
                 SqlParseTable(escape_identifier_name(identifiers[0].normalized))
             )
